@@ -833,6 +833,22 @@ class SymEval:
                 return r[0]
         return None
 
+    def exec_tolerant(self, s):
+        """exec_stmt that summarises what it cannot execute: a statement the engine declines (construction of a library object,
+        a loop, an opaque call) is replaced by 'the variables it writes hold unknown values'; compound statements are entered so
+        that one such statement does not hide its straight-line neighbours. Returns the value of a reached return, else None."""
+        if s.get("k") == "CompoundStmt":
+            for c in s.get("c", []):
+                r = self.exec_tolerant(c)
+                if r is not None:
+                    return r
+            return None
+        try:
+            return self.exec_stmt(s)
+        except Decline:
+            self.havoc(s)
+            return None
+
     def exec_stmt(self, s):
         k = s.get("k")
         if k == "CompoundStmt":
@@ -862,6 +878,28 @@ class SymEval:
             return (None,)
         if k == "NullStmt":
             return None
+        if k == "IfStmt" and s.get("else") is None:
+            # clamp idiom: if(x > U) x = U;  /  if(x < L) x = L;  (either operand order)  ==  x = min(x, U) / x = max(x, L)
+            c = strip(s["cond"])
+            th = s["then"]
+            sts = th.get("c", []) if th.get("k") == "CompoundStmt" else [th]
+            if c.get("k") == "BinaryOperator" and c.get("op") in ("<", ">", "<=", ">=") and len(sts) == 1:
+                a = strip(sts[0])
+                if a.get("k") == "BinaryOperator" and a.get("op") == "=":
+                    tgt, val = a["c"][0], a["c"][1]
+                    l, r = c["c"][0], c["c"][1]
+                    less = c["op"] in ("<", "<=")
+                    kind = None
+                    if render(strip(tgt)) == render(strip(l)) and render(strip(val)) == render(strip(r)):
+                        kind = "max" if less else "min"        # if(x < L) x = L  -> max(x, L)
+                    elif render(strip(tgt)) == render(strip(r)) and render(strip(val)) == render(strip(l)):
+                        kind = "min" if less else "max"        # if(U < x) x = U  -> min(x, U)
+                    if kind is not None:
+                        cur, bound = self.ev(tgt), self.ev(val)
+                        if isinstance(cur, sp.Basic) and isinstance(bound, sp.Basic):
+                            self.assign(tgt, (sp.Min if kind == "min" else sp.Max)(cur, bound))
+                            return None
+            raise Decline("statement kind IfStmt")
         if "omp" in s and s.get("omp") == "atomic" and isinstance(s.get("body"), dict):
             return self.exec_stmt(s["body"])
         e = strip(s)
